@@ -20,7 +20,7 @@ from ..dataflow import dataflow_of
 from ..model import AnalysisError, Func, dotted, norm_stmt, parent
 from ..paths import PathFinder, describe_path
 from ..terms import contains, show, subterms
-from ..util import calls_in, nodes_in
+from ..util import catching_handler, value_alts, calls_in, nodes_in
 from .c14 import broad_handlers, BROAD_HANDLER_EXCEPTIONS
 
 P = "C20"
@@ -187,7 +187,9 @@ def c20_3(ctx: Ctx) -> RuleResult:
                 kills.update(cfg.node_containing(c))
             if _is_bounded_wait(ctx, f, c):
                 waits.update(cfg.node_containing(c))
-        raise_nodes = [n for n in cfg.nodes if n.kind == "stmt" and isinstance(n.ast, ast.Raise)]
+        # raises that leave the function (one caught by a handler of this function is not an exit)
+        raise_nodes = [n for n in cfg.nodes if n.kind == "stmt" and isinstance(n.ast, ast.Raise)
+                       and catching_handler(ctx.repo, f, n.ast, cfg._exc_qual(n.ast.exc) if n.ast.exc is not None else "BaseException") is None]
         live = cfg.live_nodes()
         for pn in cfg.node_containing(call):
             starts = [m for m, lab in pn.succ if lab != "exc"]
@@ -304,6 +306,11 @@ def protocol_tables(ctx: Ctx):
         if any(isinstance(c.func, ast.Attribute) and c.func.attr == "read" for c in calls_in(mth)) and mth.name != "start":
             handler = mth
     if handler is None:
+        # the handler may be written out in (or inlined into) start itself
+        st_m = parent_cls.methods.get("start")
+        if st_m is not None and any(isinstance(c.func, ast.Attribute) and c.func.attr == "read" for c in calls_in(st_m)):
+            handler = st_m
+    if handler is None:
         raise AnalysisError("request handler of the external optimizer not found")
     c2p_read: set[str] = set()
     # the handler and the private methods of the same class it hands the request to
@@ -348,6 +355,16 @@ def protocol_tables(ctx: Ctx):
         if any(isinstance(t, ast.Name) and t.id in write_args for t in n.targets):
             if isinstance(n.value, ast.Constant) and isinstance(n.value.value, str):
                 p2c_written.add(n.value.value)
+    # the value handed to write(...) itself (the handler may be written out in start)
+    for call in calls_in(start):
+        if isinstance(call.func, ast.Attribute) and call.func.attr == "write" and call.args:
+            for s_ in value_alts(ctx.X.value_at(start, call.args[0])):
+                if s_[0] == "const" and isinstance(s_[1], str):
+                    p2c_written.add(s_[1])
+                if s_[0] == "dict":
+                    for k_, _v in s_[1]:
+                        if k_[0] == "const" and isinstance(k_[1], str):
+                            p2c_written.add(k_[1])
     # child reads
     p2c_read: set[str] = set()
     for mth in child_cls.methods.values():
